@@ -52,6 +52,22 @@ void *memset(void *, int, unsigned long);
 #endif
 /* ---- std::vector<T> : concrete array, symbolic size; capacity must be provided by the precondition ---- */
 #define VEC_T(T, M) struct vec_##M { T *data; unsigned long size; unsigned long cap; };
+/* how resize() fills the grown part: default = a loop with a contract (the old elements are then unconstrained for the caller:
+   good enough where only sizes matter); -DSHIM_VEC_RESIZE_EXACT8 = exact for capacities of at most 8 (asserted) */
+#ifdef SHIM_VEC_RESIZE_EXACT8
+#define SHIM_VEC_FILL1(T, k) if (v->size <= (k) && (k) < n) memset(&v->data[k], 0, sizeof(T));
+#define SHIM_VEC_GROW_FILL(T) \
+      SHIM_ASSERT(v->cap <= 8, "shim.vector.resize.exact_model_needs_capacity_at_most_8"); \
+      SHIM_VEC_FILL1(T, 0) SHIM_VEC_FILL1(T, 1) SHIM_VEC_FILL1(T, 2) SHIM_VEC_FILL1(T, 3) SHIM_VEC_FILL1(T, 4) SHIM_VEC_FILL1(T, 5) SHIM_VEC_FILL1(T, 6) SHIM_VEC_FILL1(T, 7)
+#else
+#define SHIM_VEC_GROW_FILL(T) \
+      unsigned long k_ = v->size; \
+      while (k_ < n) \
+        __CPROVER_assigns(k_, __CPROVER_object_whole(v->data)) \
+        __CPROVER_loop_invariant(k_ >= v->size && k_ <= n) \
+        __CPROVER_decreases(n - k_) \
+      { memset(&v->data[k_], 0, sizeof(T)); k_++; }
+#endif
 /* how erase moves the tail down: default = ghost-index model (one pinned element exact, the others unconstrained);
    -DSHIM_VEC_ERASE_EXACT4 = exact for vectors of at most 4 elements (asserted), used where every element matters */
 #ifdef SHIM_VEC_ERASE_EXACT4
@@ -86,16 +102,11 @@ void *memset(void *, int, unsigned long);
     if (n > v->cap && v->size == 0) { SHIM_ASSERT(n <= g_alloc_bound, "shim.alloc.bounded_by_input"); \
       T *nd = (T *)malloc(n * sizeof(T)); __CPROVER_assume(nd != 0); v->data = nd; v->cap = n; } } \
   static inline void vec_##M##_resize(struct vec_##M *v, unsigned long n) { \
-    SHIM_ASSERT(n <= g_alloc_bound, "shim.alloc.bounded_by_input"); \
-    if (n > v->cap) { SHIM_ASSERT(v->size == 0, "shim.vector.growing_resize_of_nonempty_vector_not_modelled"); \
+    SHIM_ASSERT(n <= g_alloc_bound, "shim.alloc.bounded_by_input"); __CPROVER_assume(n <= g_alloc_bound); /* reported once; do not model the giant allocation */ \
+    if (n > v->cap) { SHIM_ASSERT(v->size == 0, "shim.vector.growing_resize_of_nonempty_vector_not_modelled"); __CPROVER_assume(v->size == 0); \
       T *nd = (T *)malloc(n * sizeof(T)); __CPROVER_assume(nd != 0); memset(nd, 0, n * sizeof(T)); v->data = nd; v->cap = n; } \
     else if (n > v->size) { /* growth within the capacity: the new elements are value-initialised */ \
-      unsigned long k_ = v->size; \
-      while (k_ < n) \
-        __CPROVER_assigns(k_, __CPROVER_object_whole(v->data)) \
-        __CPROVER_loop_invariant(k_ >= v->size && k_ <= n) \
-        __CPROVER_decreases(n - k_) \
-      { memset(&v->data[k_], 0, sizeof(T)); k_++; } } \
+      SHIM_VEC_GROW_FILL(T) } \
     v->size = n; }
 
 #define OPT_T(T, M) struct opt_##M { _Bool has; T val; };
